@@ -16,6 +16,7 @@ func VH_C14_index() {
 	vAssume(vAll(i >= 0, i < n))
 	s := fragmentStart(i, int(r))
 	e := fragmentEnd(i, int(r), l)
+	vObserve("idx", s, e, n)
 	vAssert("O2-start", s == i*int(r))
 	want := (i + 1) * int(r)
 	if want > l {
